@@ -1306,3 +1306,76 @@ func c13r13(rc *core.RC) {
 		rc.Unknown(fn+"/comparison", fd.Pos(), "expected one bytes.Compare of two keys, found %d operands", n)
 	}
 }
+
+// ---- C13.R14 a flag is cleared by masking with its complement ----
+
+// Option and opcode flag words are bit sets. Clearing one flag is `w &= ^F` or `w &^= F`. `w &= F` (no complement)
+// is the opposite operation: it keeps F and clears every other flag, among them flags an outer function set before
+// (EncodeContext sets ContextOption and then calls the helper that applies the encoder's escape setting: a mask
+// without complement there drops the context and with it the field query).
+func c13r14(rc *core.RC) {
+	p := rc.P
+	n := 0
+	isFlagWord := func(t types.Type) bool {
+		if t == nil {
+			return false
+		}
+		named, ok := t.(*types.Named)
+		if !ok {
+			return false
+		}
+		name := named.Obj().Name()
+		return strings.HasSuffix(name, "Flag") || strings.HasSuffix(name, "Flags")
+	}
+	for _, pk := range p.LibPkgs() {
+		info := pk.TypesInfo
+		for _, f := range pk.Syntax {
+			var fd *ast.FuncDecl
+			ast.Inspect(f, func(m ast.Node) bool {
+				if d, ok := m.(*ast.FuncDecl); ok {
+					fd = d
+				}
+				as, ok := m.(*ast.AssignStmt)
+				if !ok || (as.Tok != token.AND_ASSIGN && as.Tok != token.AND_NOT_ASSIGN) || len(as.Lhs) != 1 || len(as.Rhs) != 1 {
+					return true
+				}
+				if !isFlagWord(info.TypeOf(as.Lhs[0])) {
+					return true
+				}
+				n++
+				fn := "?"
+				if fd != nil {
+					fn = p.FuncName(fd)
+					rc.Touch(fn)
+				}
+				key := fmt.Sprintf("%s/mask %s complement-when-clearing", fn, core.Shape(p.Fset, info, fdOrNil(fd), as.Lhs[0]))
+				rhs := core.Unparen(as.Rhs[0])
+				_, isCompl := rhs.(*ast.UnaryExpr)
+				if isCompl {
+					isCompl = rhs.(*ast.UnaryExpr).Op == token.XOR
+				}
+				switch {
+				case as.Tok == token.AND_NOT_ASSIGN && !isCompl:
+					rc.OK(key, as.Pos(), "`&^=` clears the named flags")
+				case as.Tok == token.AND_ASSIGN && isCompl:
+					rc.OK(key, as.Pos(), "`&= ^F` clears the named flags")
+				case as.Tok == token.AND_ASSIGN:
+					rc.Bad(key, as.Pos(), "`%s` keeps only %s and clears every other flag of the word, including flags an outer function set before (ContextOption, FieldQueryOption, Debug, Colorize): clearing a flag is `&= ^F` or `&^= F`", core.Src(p.Fset, as), core.Src(p.Fset, rhs))
+				default:
+					rc.Bad(key, as.Pos(), "`%s` clears everything but the named flags (`&^=` with a complement): clearing a flag is `&= ^F` or `&^= F`", core.Src(p.Fset, as))
+				}
+				return true
+			})
+		}
+	}
+	if n < 4 {
+		rc.Unknown("module/flag-masks", token.NoPos, "found %d masking assignments on flag words (confirmed: 4)", n)
+	}
+}
+
+func fdOrNil(fd *ast.FuncDecl) *ast.FuncDecl {
+	if fd == nil {
+		return &ast.FuncDecl{Type: &ast.FuncType{}}
+	}
+	return fd
+}
